@@ -1150,6 +1150,25 @@ func runDesc(res *vkit.Result, d Desc, rng *rand.Rand, idx int) {
 	}
 }
 
+// nilish: no storage at all, or an interface holding a nil pointer (which the guns would dereference).
+func nilish(v any) bool {
+	if v == nil {
+		return true
+	}
+	rv := reflect.ValueOf(v)
+	return rv.Kind() == reflect.Ptr && rv.IsNil()
+}
+
+func storageKind(v any) string {
+	switch {
+	case v == nil:
+		return "none"
+	case nilish(v):
+		return fmt.Sprintf("nil %T", v)
+	}
+	return "present"
+}
+
 func ammoDiff(a, b core.Ammo) string {
 	switch x := a.(type) {
 	case *httpscenario.Scenario:
@@ -1164,7 +1183,10 @@ func ammoDiff(a, b core.Ammo) string {
 		if df := vkit.Diff(xa, ya); df != "" {
 			return df
 		}
-		if xv != nil && yv != nil {
+		if nilish(xv) != nilish(yv) {
+			return fmt.Sprintf("variable storage: %s vs %s", storageKind(xv), storageKind(yv))
+		}
+		if !nilish(xv) {
 			return vkit.Diff(xv.Variables(), yv.Variables())
 		}
 	case *grpcgun.Scenario:
@@ -1178,7 +1200,10 @@ func ammoDiff(a, b core.Ammo) string {
 		if df := vkit.Diff(xa, ya); df != "" {
 			return df
 		}
-		if xv != nil && yv != nil {
+		if nilish(xv) != nilish(yv) {
+			return fmt.Sprintf("variable storage: %s vs %s", storageKind(xv), storageKind(yv))
+		}
+		if !nilish(xv) {
 			return vkit.Diff(xv.Variables(), yv.Variables())
 		}
 	default:
